@@ -126,6 +126,18 @@ func init() {
 						res[i] = &d
 					}
 					in := fmt.Sprintf("BatchMapToScalarField(len %d)", L)
+					if li%2 == 1 {
+						// an earlier batch that contains a value which is not a group element (the zero value of the
+						// type) — whatever that call answers, it must not leave anything behind for the next one
+						var zero banderwagon.Element
+						g1, g2 := c.SRS[1], c.SRS[2]
+						junk := []*fr.Element{new(fr.Element), new(fr.Element), new(fr.Element)}
+						func() {
+							defer func() { recover() }()
+							banderwagon.BatchMapToScalarField(junk, []*banderwagon.Element{&g1, &zero, &g2})
+						}()
+						in += " after a batch containing a zero-valued Element"
+					}
 					orig := append([]*fr.Element(nil), res...)
 					var err error
 					if !guard(r, "c11.panic", "banderwagon.BatchMapToScalarField", in, func() { err = banderwagon.BatchMapToScalarField(res, els) }) {
